@@ -25,8 +25,9 @@ def register():
     from panqec.decoders import BaseDecoder
 
     class TracerErrorModel(BaseErrorModel):
-        def __init__(self, tag=0):
+        def __init__(self, tag=0, extra=None):
             self.tag = tag
+            self.extra = {} if extra is None else dict(extra)
 
         @property
         def label(self):
@@ -34,7 +35,7 @@ def register():
 
         @property
         def params(self):
-            return {'tag': self.tag}
+            return {'tag': self.tag, 'extra': self.extra}
 
         def generate(self, code, error_rate, rng=None):
             k = code.logicals_x.shape[0]
@@ -82,23 +83,23 @@ def trial_id(effective_error):
     return tid
 
 
-def tracer_spec(rates, sizes=((2, 2, 2),), tag=0):
+def tracer_spec(rates, sizes=((2, 2, 2),), tag=0, models=None):
     return {'ranges': {
         'label': 'c12',
         'code': {'name': 'XCubeCode', 'parameters': [
             {'L_x': s[0], 'L_y': s[1], 'L_z': s[2]} for s in sizes]},
         'error_model': {'name': 'TracerErrorModel',
-                        'parameters': [{'tag': tag}]},
+                        'parameters': models or [{'tag': tag}]},
         'decoder': {'name': 'NullDecoder', 'parameters': {}},
         'error_rate': list(rates)}}
 
 
-def real_spec(rates, sizes=((3, 3),)):
+def real_spec(rates, sizes=((3, 3),), models=None):
     return {'ranges': {
         'label': 'c12real',
         'code': {'name': 'Toric2DCode', 'parameters': [
             {'L_x': s[0], 'L_y': s[1]} for s in sizes]},
-        'error_model': {'name': 'PauliErrorModel', 'parameters': [
+        'error_model': {'name': 'PauliErrorModel', 'parameters': models or [
             {'r_x': 1 / 3, 'r_y': 1 / 3, 'r_z': 1 / 3}]},
         'decoder': {'name': 'MatchingDecoder', 'parameters': {}},
         'error_rate': list(rates)}}
